@@ -90,7 +90,10 @@ impl Token for SnapTokenClaims {
         self.pssid.to_string()
     }
     fn exp_time(&self) -> SystemTime {
-        UNIX_EPOCH + Duration::from_secs(self.exp)
+        // Saturate instead of overflowing on absurdly large expiration values.
+        UNIX_EPOCH
+            .checked_add(Duration::from_secs(self.exp))
+            .unwrap_or(UNIX_EPOCH + Duration::from_secs(i64::MAX as u64 / 2))
     }
     fn required_claims() -> Vec<&'static str> {
         vec!["exp", "pssid"]
